@@ -25,58 +25,7 @@ pub assume_specification<T, E> [std::result::Result::<T, E>::expect_err] (r: std
     requires r is Err,
     ensures e == r->Err_0;
 
-type Item = Result<InternalValue, Error>;
-
-enum StreamFilterVerdict { Keep, Replace((ValueType, UserValue)), Drop }
-
-/// stands for std::iter::Peekable<I>
-#[verifier::external_body]
-struct Peek { v: Vec<Item> }
-impl Peek {
-    uninterp spec fn rest(&self) -> Seq<Item>;
-
-    #[verifier::external_body]
-    fn next(&mut self) -> (r: Option<Item>)
-        ensures
-            old(self).rest().len() == 0 ==> r is None && final(self).rest() == old(self).rest(),
-            old(self).rest().len() > 0 ==> r == Some(old(self).rest()[0]) && final(self).rest() == old(self).rest().skip(1),
-    { unimplemented!() }
-
-    #[verifier::external_body]
-    fn peek(&mut self) -> (r: Option<&Item>)
-        ensures
-            final(self).rest() == old(self).rest(),
-            old(self).rest().len() == 0 ==> r is None,
-            old(self).rest().len() > 0 ==> r is Some && *r->0 == old(self).rest()[0],
-    { unimplemented!() }
-}
-
-struct DropLog { ghost log: Seq<InternalValue> }
-impl DropLog {
-    #[verifier::external_body]
-    fn on_dropped(&mut self, kv: &InternalValue)
-        ensures final(self).log == old(self).log.push(*kv)
-    { }
-}
-
-
-trait StreamFilter {
-    fn filter_item(&mut self, item: &InternalValue) -> (r: Result<StreamFilterVerdict, Error>)
-        ensures r == Ok::<StreamFilterVerdict, Error>(StreamFilterVerdict::Keep);   // NoFilter instance (C17 generalises)
-}
-
-spec fn all_ok(s: Seq<Item>) -> bool { forall|i: int| 0 <= i < s.len() ==> (#[trigger] s[i]) is Ok }
-spec fn vals(s: Seq<Item>) -> Seq<InternalValue> { Seq::new(s.len(), |i: int| s[i]->Ok_0) }
-spec fn krank(it: Item) -> int { it->Ok_0.key.user_key.rank() }
-
-/// length of the maximal prefix of Ok entries with key rank k
-/// entries `drain_key(key, keep_weak_tombstones, keep_tombstones)` stops in front of
-spec fn kept(v: InternalValue, kw: bool, kt: bool) -> bool { (kt && dead(v)) || (kw && v.key.value_type == ValueType::WeakTombstone) }
-spec fn same_key_prefix(s: Seq<Item>, k: int, kw: bool, kt: bool) -> nat
-    decreases s.len()
-{
-    if s.len() == 0 { 0 } else if s[0] is Ok && krank(s[0]) == k && !kept(s[0]->Ok_0, kw, kt) { 1 + same_key_prefix(s.skip(1), k, kw, kt) } else { 0 }
-}
+//@ INCLUDE prelude/stream_env.rs
 
 
 spec fn keys_sorted(s: Seq<Item>) -> bool {
@@ -185,37 +134,11 @@ spec fn step_log(r0: Seq<Item>, r1: Seq<Item>, l0: Seq<InternalValue>, l1: Seq<I
     }
 }
 
-struct CompactionStream<F: StreamFilter> {
-    filter: F,
-    inner: Peek,
-    gc_seqno_threshold: SeqNo,
-    dropped_callback: Option<DropLog>,
-    evict_tombstones: bool,
-    zero_seqnos: bool,
-}
-
 impl<F: StreamFilter> CompactionStream<F> {
-    spec fn log(&self) -> Seq<InternalValue> { match self.dropped_callback { Some(l) => l.log, None => Seq::empty() } }
-    spec fn has_cb(&self) -> bool { self.dropped_callback is Some }
-    spec fn same_cfg(&self, o: &Self) -> bool {
-        self.gc_seqno_threshold == o.gc_seqno_threshold && self.evict_tombstones == o.evict_tombstones
-        && self.zero_seqnos == o.zero_seqnos && self.has_cb() == o.has_cb()
-    }
-
+    // contract proved from the real body in unit `drain_key` (C13.4, C01.35); assumed here to keep this unit's query unchanged
     #[verifier::external_body]
     fn drain_key(&mut self, key: &UserKey, keep_weak_tombstones: bool, keep_tombstones: bool) -> (r: Result<(), Error>)
-        ensures
-            final(self).same_cfg(old(self)),
-            ({
-                let s = old(self).inner.rest();
-                let n = same_key_prefix(s, key.rank(), keep_weak_tombstones, keep_tombstones) as int;
-                if n < s.len() && s[n] is Err {
-                    r is Err && r->Err_0 == s[n]->Err_0 && final(self).inner.rest() == s.skip(n + 1)
-                } else {
-                    r is Ok && final(self).inner.rest() == s.skip(n)
-                    && (old(self).has_cb() ==> final(self).log() == old(self).log() + vals(s.take(n)))
-                }
-            }),
+//@ INCLUDE prelude/drain_key_ensures.rs
     { unimplemented!() }
 
 //@ FROM src/compaction/stream.rs :: Iterator for CompactionStream :: fn next :: OBL C01.6, C09.1, C13.2
